@@ -118,9 +118,6 @@ Section AllLeaves.
     rewrite (Hpat p r eq_refl). rewrite andb_true_r. assumption.
   Qed.
 
-  (** str(Decimal) has no exponent: exponent <= 0 and adjusted exponent >= -6 *)
-  Definition dec_plain_region (d : decimal) : bool :=
-    (d_exp d <=? 0) && (-6 <? d_exp d + len (str_nat (d_coeff d))).
   (** what may be written on the wire: the libraries agree on delegated values, and a Decimal
       is one that str() writes without exponent (known finding C06|decimal|exponent-notation) *)
   Definition wire_ok (v : sval) : bool :=
